@@ -523,3 +523,164 @@ func TestVerifC18MuxE2E(t *testing.T) {
 		}
 	})
 }
+
+// ---------------------------------------------------------------------------- held sessions
+
+// TestVerifC18MuxHeld: part "mux-held". Connections that a sub-listener's Accept has handed to
+// a handler belong to that handler. N sessions (socks and http first bytes mixed) are accepted
+// and are still in use (the client has sent only part of its stream) when one / both
+// sub-listeners are closed or the base listener's Accept fails (the mux shuts down). Oracle:
+// nobody but the handler calls Close() on a delivered connection; afterwards the client's
+// remaining bytes still reach the handler (peeked first byte + everything behind it, exact),
+// the handler's write reaches the client, and only then the handler closes. Connections
+// that were never delivered are closed by the mux as before.
+func TestVerifC18MuxHeld(t *testing.T) {
+	k := vfNewKit(t, "C18", "mux-held")
+	defer k.Finish()
+	events := []string{"close-socks", "close-http", "close-socks-then-http", "close-http-then-socks", "base-accept-fails"}
+	regs := []string{"both", "socks-only", "http-only"}
+	synctest.Test(t, func(t *testing.T) {
+		for ei, ev := range events {
+			for _, reg := range regs {
+				for _, nconn := range []int{1, 7} {
+					caseID := fmt.Sprintf("held-%s-%s-%d", ev, reg, nconn)
+					if rc := k.ReplayCase(); rc != "" && rc != caseID {
+						continue
+					}
+					k.Eval()
+					r := k.Rand(caseID)
+					p := vfC18NewPort()
+					p.ackWhenComplete = true
+					var schedule []string
+					step := func(s string) { schedule = append(schedule, s) }
+					var hs, hh net.Listener
+					if reg != "http-only" {
+						hs, _ = p.listen("socks")
+						p.acceptor("socks", hs)
+					}
+					if reg != "socks-only" {
+						hh, _ = p.listen("http")
+						p.acceptor("http", hh)
+					}
+					step("registered: " + reg + ", handlers accepting")
+					synctest.Wait()
+					p.mu.Lock()
+					base := p.base
+					p.mu.Unlock()
+					resume := make(chan struct{})
+					var held []*vfC18Conn
+					for i := 0; i < nconn; i++ {
+						first := 5
+						if (i+ei)%2 == 1 {
+							first = vfC18OtherBytes[r.Intn(len(vfC18OtherBytes))]
+						}
+						plen := 20 + r.Intn(5000)
+						pause := 1 + r.Intn(plen)
+						if i%3 == 0 {
+							pause = 1 // only the detection byte has been sent so far
+						}
+						c := p.connectOpt(first, plen, nil, false, vfC18ConnOpt{drain: true, keepOpen: true, pauseAfter: pause, resume: resume})
+						held = append(held, c)
+						step(fmt.Sprintf("%s connects, sends first byte %#02x + %d of %d payload bytes, keeps the session open", c.name(), first, pause-1, plen))
+					}
+					synctest.Wait()
+					deliveredBefore := 0
+					for _, c := range held {
+						c.mu.Lock()
+						if len(c.delivered) == 1 {
+							deliveredBefore++
+						}
+						c.mu.Unlock()
+					}
+					switch ev {
+					case "close-socks":
+						if hs != nil {
+							_ = hs.Close()
+							hs = nil
+						}
+					case "close-http":
+						if hh != nil {
+							_ = hh.Close()
+							hh = nil
+						}
+					case "close-socks-then-http", "close-http-then-socks":
+						a, b := hs, hh
+						if ev == "close-http-then-socks" {
+							a, b = hh, hs
+						}
+						if a != nil {
+							_ = a.Close()
+							synctest.Wait()
+						}
+						if b != nil {
+							_ = b.Close()
+						}
+						hs, hh = nil, nil
+					case "base-accept-fails":
+						base.fail(fmt.Errorf("accept tcp 127.0.0.1:1080: accept4: too many open files"))
+					}
+					synctest.Wait()
+					step("event: " + ev + " (mux shut down: " + fmt.Sprint(vfC18LogHas(p, "mux_deleted", "")) + ")")
+					close(resume)
+					synctest.Wait()
+					step("the clients send the rest of their streams")
+					usable := 0
+					for _, c := range held {
+						c.mu.Lock()
+						dl := len(c.delivered)
+						got := append([]byte(nil), c.got...)
+						ack := string(c.cliGot)
+						werr := c.writeErr
+						stolen := c.firstCloseNotByOwner
+						c.mu.Unlock()
+						if dl != 1 {
+							continue
+						}
+						replay := map[string]any{"case_id": caseID, "schedule": schedule, "connection": c.name(), "event_log": p.log.Tail(80)}
+						if stolen {
+							continue // reported by judge() below with the same witness
+						}
+						if werr != "" || ack != "ack:"+c.name() {
+							k.Violation("mux:delivered-conn-unusable", replay, "%s was delivered before %q; afterwards the handler's write failed (%q) / the client received %q instead of the handler's reply", c.name(), ev, werr, ack)
+							continue
+						}
+						usable++
+						_ = got
+					}
+					// the owners are done: clients close, handlers read EOF, compare, close
+					for _, c := range held {
+						_ = c.cli.Close()
+					}
+					vs, delivered, closed, _, nbytes, stuck := vfC18Settle(p, []net.Listener{hs, hh}, step)
+					k.Count("ev_mux_events", int64(p.log.Len()))
+					k.Count("ev_conns_delivered", int64(delivered))
+					k.Count("ev_conns_closed_by_mux", int64(closed))
+					k.Count("ev_held_sessions_delivered_before_event", int64(deliveredBefore))
+					k.Count("ev_held_sessions_usable_after_event", int64(usable))
+					k.Count("ev_bytes_behind_detection_byte_checked", int64(nbytes))
+					if stuck > 0 {
+						k.Count("harness_goroutines_stuck", int64(stuck))
+					}
+					if deliveredBefore > 0 {
+						k.Nontrivial(caseID)
+					}
+					if ei == 2 && reg == "both" {
+						k.Sample(map[string]any{"case": caseID, "schedule": schedule, "held_delivered": deliveredBefore, "usable_after": usable})
+					}
+					seen := map[string]bool{}
+					for _, v := range vs {
+						if seen[v.Key] {
+							continue
+						}
+						seen[v.Key] = true
+						k.Violation(v.Key, map[string]any{"case_id": caseID, "schedule": schedule, "connection": v.Conn, "event_log": p.log.Tail(80)},
+							"held sessions, event %q, registered %s, schedule=[%s]: %s", ev, reg, strings.Join(schedule, " ; "), v.Detail)
+					}
+				}
+			}
+		}
+	})
+	if k.ReplayCase() == "" && k.Counter("ev_held_sessions_usable_after_event") == 0 {
+		k.Inconclusive("no held session survived to be judged")
+	}
+}
